@@ -257,7 +257,7 @@ def race_stage(pid, tier, runs, pkgs=("subscribe", "coalesce", "match", "cache",
             sigs[sig] = sigs.get(sig, 0) + cnt
     for sig, cnt in sorted(sigs.items()):
         if any((p + ".") in sig for p in pkgs):
-            outcome.report(sig, dict(family="race", signature=sig, count=cnt, note="Go race detector report while running 'verifdrv-race subscribe random'"))
+            outcome.report(sig, dict(family="race", signature=sig, count=cnt, report=racelib.REPORTS.get(sig, ""), note="Go race detector report while running 'verifdrv-race subscribe random'"))
         else:
             vlib.log("NOTE: race report outside the code under test ignored: %s" % sig)
     vlib.log("[race] %d subscribe scenarios under the race detector, %d distinct report signature(s)" % (nsc, len(sigs)))
